@@ -389,7 +389,7 @@ func genMapRound(r rng, prop string, flavors []string, hashers []string) (*mapRo
 func runLinzMap(a *args, res *result) {
 	flavors := []string{"Map"}
 	var hashers []string
-	if a.prop == "C04" {
+	if a.prop == "C04" || a.prop == "C10" {
 		flavors = []string{"MapOf[int,val]", "MapOf[string,val]", "MapOf[skey,val]"}
 		hashers = hasherModes
 	}
